@@ -39,7 +39,7 @@ for pid in ALL:
     ))
 man = dict(
     version=1,
-    setup_cmd="python3-vt -m compileall -q pyvc contracts && mkdir -p evidence replay .work",
+    setup_cmd="python3-vt -m compileall -q pyvc contracts && mkdir -p evidence replay .work && for f in lemmas/*.lean; do lean \"$f\" || exit 1; done",
     hooks=dict(guard="RL_BLOX_VERIF", enable="none needed: contracts are sidecar files under /verif; /repo sources are read as text (no instrumentation)",
                baseline_off_cmd="cd /repo && /venv/bin/python -m pytest -ra -q -p no:cacheprovider --timeout=900 --continue-on-collection-errors",
                source_commits=[], add_only=True),
